@@ -805,6 +805,11 @@ class Dict(dict, base.Symbolic, pg_typing.CustomTyping):
       value = default
     return value
 
+  def __ior__(self, other: Any) -> 'Dict':
+    """In-place union goes through `update` (checks, parenting, validation)."""
+    self.update(other)
+    return self
+
   def update(
       self,
       other: Union[
